@@ -158,12 +158,14 @@ package bgv
 //@   case len(op0.Value) == 2 && len(op1.Value) == 3 && len(opOut.Value) == 3
 //@   case len(op0.Value) == 3 && len(op1.Value) == 2 && len(opOut.Value) == 3
 //@   case len(op0.Value) == 2 && len(op1.Value) == 3 && len(opOut.Value) == 2
+//@   case len(op0.Value) == 2 && len(op1.Value) == 2 && len(opOut.Value) == 3
 //@   requires old(cmpval(op0.MetaData.PlaintextMetaData.Scale, op1.MetaData.PlaintextMetaData.Scale)) == 0
 //@   requires isntt(op0.Value[0]) && isntt(op0.Value[1]) && isntt(op1.Value[0]) && isntt(op1.Value[1]) && mexp(op0.Value[0]) == 0 && mexp(op0.Value[1]) == 0 && mexp(op1.Value[0]) == 0 && mexp(op1.Value[1]) == 0
 //@   ensures implies(isnil(err), val(opOut.Value[0]) == old(val(op0.Value[0])) - old(val(op1.Value[0])) && val(opOut.Value[1]) == old(val(op0.Value[1])) - old(val(op1.Value[1])))
 //@   ensures implies(isnil(err) && len(op0.Value) == 3 && len(op1.Value) == 2, len(opOut.Value) == 3 && val(opOut.Value[2]) == old(val(op0.Value[2])))
 //@   ensures implies(isnil(err) && len(op0.Value) == 2 && len(op1.Value) == 3, len(opOut.Value) == 3 && val(opOut.Value[2]) == 0 - old(val(op1.Value[2])))
-//@   ensures implies(isnil(err) && len(op0.Value) == 2 && len(op1.Value) == 2, len(opOut.Value) == 2)
+//@   ensures implies(isnil(err) && len(op0.Value) == 2 && len(op1.Value) == 2 && old(len(opOut.Value)) == 2, len(opOut.Value) == 2)
+//@   ensures implies(isnil(err) && len(op0.Value) == 2 && len(op1.Value) == 2 && old(len(opOut.Value)) == 3, len(opOut.Value) == 3 && val(opOut.Value[2]) == 0)
 
 //@ afunc Evaluator.Add#ct
 //@   property C05
@@ -172,12 +174,14 @@ package bgv
 //@   case len(op0.Value) == 2 && len(op1.Value) == 3 && len(opOut.Value) == 3
 //@   case len(op0.Value) == 3 && len(op1.Value) == 2 && len(opOut.Value) == 3
 //@   case len(op0.Value) == 2 && len(op1.Value) == 3 && len(opOut.Value) == 2
+//@   case len(op0.Value) == 2 && len(op1.Value) == 2 && len(opOut.Value) == 3
 //@   requires old(cmpval(op0.MetaData.PlaintextMetaData.Scale, op1.MetaData.PlaintextMetaData.Scale)) == 0
 //@   requires isntt(op0.Value[0]) && isntt(op0.Value[1]) && isntt(op1.Value[0]) && isntt(op1.Value[1]) && mexp(op0.Value[0]) == 0 && mexp(op0.Value[1]) == 0 && mexp(op1.Value[0]) == 0 && mexp(op1.Value[1]) == 0
 //@   ensures implies(isnil(err), val(opOut.Value[0]) == old(val(op0.Value[0])) + old(val(op1.Value[0])) && val(opOut.Value[1]) == old(val(op0.Value[1])) + old(val(op1.Value[1])))
 //@   ensures implies(isnil(err) && len(op0.Value) == 3 && len(op1.Value) == 2, len(opOut.Value) == 3 && val(opOut.Value[2]) == old(val(op0.Value[2])))
 //@   ensures implies(isnil(err) && len(op0.Value) == 2 && len(op1.Value) == 3, len(opOut.Value) == 3 && val(opOut.Value[2]) == old(val(op1.Value[2])))
-//@   ensures implies(isnil(err) && len(op0.Value) == 2 && len(op1.Value) == 2, len(opOut.Value) == 2)
+//@   ensures implies(isnil(err) && len(op0.Value) == 2 && len(op1.Value) == 2 && old(len(opOut.Value)) == 2, len(opOut.Value) == 2)
+//@   ensures implies(isnil(err) && len(op0.Value) == 2 && len(op1.Value) == 2 && old(len(opOut.Value)) == 3, len(opOut.Value) == 3 && val(opOut.Value[2]) == 0)
 
 // ---- ciphertext (+, -, *) integer scalar: the scalar is applied at the scale of the ciphertext, so the
 // ---- output records the scale of the input whatever the receiver held (finding F34); the components
